@@ -174,6 +174,10 @@ func (c *Client) Begin(pess bool, mode string) (uint64, string) {
 		txn.SetEnableAsyncCommit(true)
 	case "1pc":
 		txn.SetEnable1PC(true)
+	case "both":
+		// TiDB's default: one-phase commit when the transaction fits one request, else async commit
+		txn.SetEnableAsyncCommit(true)
+		txn.SetEnable1PC(true)
 	}
 	st := &txnState{txn: txn, startTS: txn.StartTS(), pess: pess, mode: mode}
 	c.callEnd(n, "begin", u(st.startTS), func() {
